@@ -42,6 +42,9 @@ def run(ctx):
     n = 800 if ctx.tier == "quick" else 60000
     seeds = [ctx.seed] if ctx.tier == "quick" else [ctx.seed + i for i in range(3)]
     aof_common.run_mode(ctx, exe, "aofdeadline", n, ["C07:"], classify, "deadline conversions vs real Push / LoadAofFile / GetLockCommandExpriedTime", seeds=seeds)
+    # replay order across several append files (indices straddling powers of ten): real FindAofFiles + LoadAofFiles vs `recoverDir`
+    aof_common.run_mode(ctx, exe, "aoforder", 13 if ctx.tier == "quick" else 200, ["C07:"], lambda op, impl: ("aoforder", len(op) % 97, impl[-3:]),
+                        "M-AOF recoverDir vs real FindAofFiles + LoadAofFiles (several append files)", seeds=seeds)
     aof_common.run_restart(ctx, exe, 30 if ctx.tier == "quick" else 500, ["C07:"], seeds=seeds)
     ctx.cov["rule"] = ("random (unit flags, Expried incl. 1/59/60/61/1000/60000/65535, grant second, journal second within the hold's life, reload second incl. clock steps back); "
                        "distinct = (unit, Expried bucket, skipped, restored 0, outage bucket). restart: 12-36 operations per history over 2-3 dbs x 1-2 keys x 3 LockIds "
